@@ -102,7 +102,7 @@ Local(g, I, ev) ==
          IN [g |-> b.g, inst |-> b.inst, acc |-> a.acc \cup b.acc, eff |-> NoEff]
     [] ev.e = "Switch" -> LET b == ChipInit(g, [I EXCEPT !.emu = ev.emu]) IN [g |-> b.g, inst |-> b.inst, acc |-> b.acc, eff |-> NoEff]
     [] ev.e = "Pcm" -> LET b == ChipInit(g, [I EXCEPT !.pcm = (ev.v # 0)]) IN [g |-> b.g, inst |-> b.inst, acc |-> b.acc, eff |-> NoEff]
-    [] ev.e \in {"Chips", "Reset", "Load"} -> LET b == ChipInit(g, I) IN [g |-> b.g, inst |-> b.inst, acc |-> b.acc, eff |-> NoEff]
+    [] ev.e \in {"Chips", "Reset", "Load", "Fam"} -> LET b == ChipInit(g, I) IN [g |-> b.g, inst |-> b.inst, acc |-> b.acc, eff |-> NoEff]
     [] ev.e = "Lfo" ->      \* opn2_setLfoEnabled -> commitLFOSetup: register 0x22 on the existing chips
          LET on == ev.v # 0 IN
          IF I.emu = EMU_NP2 /\ ~FixLfoTable
@@ -125,7 +125,7 @@ Step(S, ev) ==
       now == (IF w.eff.ct # s.eff.ct THEN {"nuked-chip_type"} ELSE {}) \cup (IF w.eff.lfod # s.eff.lfod THEN {"np2-lfotable"} ELSE {})
       audio == ev.e \in {"Gen", "Play"}
       diag == IF audio THEN now \cup S.inst[i].taint ELSE {}
-      taint == IF ev.e \in {"Create", "Switch", "Pcm", "Chips", "Reset", "Load", "Close"} THEN {}      \* OPN2::reset builds new chips
+      taint == IF ev.e \in {"Create", "Switch", "Pcm", "Chips", "Reset", "Load", "Fam", "Close"} THEN {}      \* OPN2::reset builds new chips
                ELSE IF audio THEN diag ELSE S.inst[i].taint
   IN [inst |-> [S.inst EXCEPT ![i] = [w.inst EXCEPT !.taint = taint]], g |-> w.g,
       solo |-> [S.solo EXCEPT ![i] = [inst |-> s.inst, g |-> s.g]],
